@@ -415,7 +415,8 @@ Definition C06_spec (aux : C06_aux) (o : parse_out) : bool :=
         && perm_b pair_eqb2 (track_keys (c_tracks ch)) keys
         && forallb (fun p => forallb (fun q => str_eqb (it_instr (snd q)) (fst p) && str_eqb (it_diff (snd q)) (fst q))
                                      (snd p)) (c_tracks ch)
-    | Err _, Err _ => true
+    (* the generator builds every base chart from valid section bodies (possibly empty ones): with all three required
+       sections present the file must be accepted, in the canonical rendering and in every variant *)
     | _, _ => false
     end.
 
@@ -444,22 +445,26 @@ Definition C13_spec (aux : C13_aux) (o : parse_out) : bool :=
 
 (** *** C20 *)
 From CP Require Import Model.Imports.
-Definition C20_obs := (bool * list (modname * list (name * String.string)) * list (modname * list name))%type.
+Definition C20_obs := (bool * list (modname * list (name * String.string)) * list (modname * list name)
+                       * list (modname * list (name * String.string)))%type.
 Definition C20_verdict_N (P : progs) (seq : list modname) (o : C20_obs) : N :=
-  let '(ok, obs, names) := o in if C20_verdict P seq ok obs names then 0%N else 1%N.
+  let '(ok, obs, names, _) := o in if C20_verdict P seq ok obs names then 0%N else 1%N.
 (** Judged on the implementation alone: the imports succeed and every loaded module shows exactly the
-    names, bound to the same objects, that it shows when the same set of modules is imported in sorted
-    order in another fresh interpreter ([base]). *)
+    names, bound to the same objects (identity labels) and, for plain data, to equal values (digests), that it shows
+    when the same set of modules is imported in sorted order in another fresh interpreter ([base]). *)
 Definition lookup_s {A} (k : String.string) (l : list (String.string * A)) : option A :=
   match find (fun p => String.eqb k (fst p)) l with Some p => Some (snd p) | None => None end.
 Definition name_lab_eqb (a b : name * String.string) : bool := String.eqb (fst a) (fst b) && String.eqb (snd a) (snd b).
-Definition C20_spec (base : list (modname * list (name * String.string))) (seq : list modname) (o : C20_obs) : bool :=
-  let '(ok, obs, names) := o in
-  ok && forallb (fun m => match lookup_s m obs with Some _ => true | None => false end) seq
-  && Nat.eqb (length obs) (length base)
+Definition same_bindings (obs base : list (modname * list (name * String.string))) : bool :=
+  Nat.eqb (length obs) (length base)
   && forallb (fun p => match lookup_s (fst p) base with
                        | Some ns => perm_b name_lab_eqb (snd p) ns
                        | None => false end) obs.
+Definition C20_spec (base : list (modname * list (name * String.string)) * list (modname * list (name * String.string)))
+           (seq : list modname) (o : C20_obs) : bool :=
+  let '(ok, obs, names, vals) := o in
+  ok && forallb (fun m => match lookup_s m obs with Some _ => true | None => false end) seq
+  && same_bindings obs (fst base) && same_bindings vals (snd base).
 
 (** C06 input: read by path (utf-8-sig + universal newlines, modelled by [from_filepath]) or from an
     already decoded text. *)
@@ -534,3 +539,9 @@ Definition C07t_spec (aux : bool * list (Z * Z) * list (Z * Z) * list (Z * str))
         && list_eqb Zstr_eqb (map (fun e => (t_tick (te_at e), te_value e)) (it_tevs tr)) el
     | None => false
     end).
+
+(** C06 by path, from the BYTES of the file (utf-8-sig codec + universal newlines + from_file). *)
+From CP Require Import Base.Utf8 Model.ChartBytes.
+Definition C06b_in := (list N * option (list (str * str)))%type.
+Definition C06b_verdict (c : cfg) (i : C06b_in) (o : parse_out) : N :=
+  verdict parse_eqb (from_filepath_bytes c (fst i) (snd i)) o.
